@@ -9,6 +9,10 @@ from .runner import digest
 def to_candidate(spec, sched):
     """strip what is derived: keep task times, flags, selections and dynamic spans"""
     out = {"horizon": sched["horizon"], "tasks": copy.deepcopy(sched["tasks"]), "assign": []}
+    for rec in out["tasks"].values():
+        if not rec["scheduled"]:
+            # where an unscheduled task is parked is the encoder's business, not part of a schedule
+            rec["start"] = rec["end"] = rec["duration"] = None
     if "horizon_var" in sched:
         out["horizon_var"] = sched["horizon_var"]
     for ai, a in enumerate(spec.get("assign", [])):
@@ -51,7 +55,7 @@ def neighbours(spec, sched):
                 out.append(c)
         if tspec[n]["optional"]:
             c = copy.deepcopy(base)
-            c["tasks"][n]["scheduled"] = False
+            c["tasks"][n].update(scheduled=False, start=None, end=None, duration=None)
             out.append(c)
     for ai, a in enumerate(spec["assign"]):
         ch = base["assign"][ai].get("chosen")
